@@ -307,3 +307,105 @@ func vNegotiate(cm, sm CompressionMode) (copts, sopts *compressionOptions) {
 	vAssert(err == nil, "C01.flate.handshake-succeeds")
 	return copts, sopts
 }
+
+// C02.stale-writer: programs in which the io.WriteCloser of a finished message is used again (Write or Close on it) while
+// later messages are written - by Write, or through a new Writer that is still open. Whatever those calls return, the
+// wire stays a sentence of the frame grammar and decodes to exactly the messages that were written through live writers:
+// a closed writer stays closed.
+func verifC02_stale_writer() {
+	client := vParam("client", 1) == 1
+	vInstallRand()
+	t := vNewTransport(nil)
+	t.endMode = vEndBlock
+	c := vNewConn(t, client, vCopts(vParam("deflate", 0)), 16, 64)
+	a, b, b2, d := vBytes("a", 1), vBytes("b", 1), vBytes("b", 1), vBytes("d", 1)
+	var want []vSent
+	w1, err := c.Writer(vBG, MessageText)
+	vAssert(err == nil, "C02.stale.writer-ok")
+	if err != nil {
+		return
+	}
+	w1.Write(a)
+	vAssert(w1.Close() == nil, "C02.stale.first-close-ok")
+	want = append(want, vSent{MessageText, a})
+	between := vChoose("between", 3)
+	vClassify("between", []string{"nothing", "a-plain-Write", "a-new-Writer-left-open"}[between])
+	var w2 interface {
+		Write([]byte) (int, error)
+		Close() error
+	}
+	switch between {
+	case 1:
+		vAssert(c.Write(vBG, MessageBinary, b) == nil, "C02.stale.write-ok")
+		want = append(want, vSent{MessageBinary, b})
+	case 2:
+		w2, err = c.Writer(vBG, MessageBinary)
+		vAssert(err == nil, "C02.stale.second-writer-ok")
+		if err != nil {
+			return
+		}
+		w2.Write(b)
+	}
+	stale := vChoose("staleOp", 3)
+	vClassify("stale", []string{"Write", "Close", "Write-then-Close"}[stale])
+	// (bounded contexts are not needed: the stale calls use the context of the message they belonged to)
+	var e1, e2 error
+	if stale == 0 || stale == 2 {
+		_, e1 = w1.Write(vBytes("s", 1))
+	}
+	if stale == 1 || stale == 2 {
+		e2 = w1.Close()
+	}
+	vReach("C02.stale.used")
+	if w2 != nil {
+		w2.Write(b2)
+		vAssert(w2.Close() == nil, "C02.stale.live-writer-closes")
+		want = append(want, vSent{MessageBinary, append(append([]byte{}, b...), b2...)})
+	}
+	vAssert(c.Write(vBG, MessageText, d) == nil, "C02.stale.later-write-ok")
+	want = append(want, vSent{MessageText, d})
+	_, _ = e1, e2
+	// the wire, decoded independently
+	frames, ok := vParseWritten(t.out)
+	vAssert(ok, "C02.stale.wellformed")
+	var got []vSent
+	var cur []byte
+	var curTyp MessageType
+	inMsg := false
+	good := true
+	for _, f := range frames {
+		if f.opcode >= 8 {
+			continue
+		}
+		if f.opcode == 0 {
+			good = good && inMsg
+		} else {
+			good = good && !inMsg
+			curTyp = MessageType(f.opcode)
+			cur = nil
+		}
+		if f.rsv1 {
+			// (compressed payloads are not compared byte for byte here)
+			cur = nil
+		}
+		cur = append(cur, f.payload...)
+		inMsg = !f.fin
+		if f.fin {
+			got = append(got, vSent{curTyp, cur})
+		}
+	}
+	vAssert(good && !inMsg, "C02.stale.grammar")
+	same := len(got) == len(want)
+	if same {
+		for i := range got {
+			same = vAnd(same, vAnd(got[i].typ == want[i].typ, vEqBytes(got[i].payload, want[i].payload)))
+		}
+	}
+	if vParam("deflate", 0) == 0 {
+		vAssert(same, "C02.stale.exactly-the-messages-written")
+	} else {
+		vAssert(len(got) == len(want), "C02.stale.exactly-the-messages-written")
+	}
+	c.CloseNow()
+	vObserve("stale", between, stale, len(got))
+}
